@@ -320,5 +320,59 @@ fn main() {
             }
         }
     }
+    // scale: long histories and long values (capacity growth, thresholds on list
+    // length or value size cannot show within 3-5 operations)
+    run.bound("scale: one 3 x menu-length history per seed (every operation of the full menu in three different orders), lists grown by 64 pushes per list variable, 16 KiB values; every intermediate state checked");
+    let menu = ops(true);
+    let mut t = Tally::new();
+    for seed in ["empty", "minimal", "full"] {
+        let mut hist: Vec<Op> = vec![];
+        // the menu forwards, backwards, and with stride 7
+        let order: Vec<usize> = (0..menu.len())
+            .chain((0..menu.len()).rev())
+            .chain((0..menu.len()).map(|i| (i * 7) % menu.len()))
+            .collect();
+        if let Some((mut real, mut model)) = build(seed, &[], &mut t) {
+            for i in order {
+                let op = menu[i].clone();
+                hist.push(op.clone());
+                if guard(|| op.apply_real(&mut real)).is_err() {
+                    t.violation(Violation::new("history", hist_json(seed, &hist), json!("returns"), json!("panic"), "setter panicked in a long history"));
+                    break;
+                }
+                op.apply_model(&mut model);
+                t.states += 1;
+                t.transitions += 1;
+                let h = hist.clone();
+                if !check_state(&mut t, &real, &model, &move || hist_json(seed, &h)) {
+                    break;
+                }
+            }
+        }
+    }
+    for (i, (_, kind, _)) in VARS.iter().enumerate() {
+        let mut hist: Vec<Op> = vec![];
+        let Some((mut real, mut model)) = build("minimal", &[], &mut t) else { continue };
+        let steps: Vec<Op> = match kind {
+            Kind::A => (0..64).map(|k| Op::Push(i, format!("item {}", k % 5))).chain(std::iter::once(Op::Set(i, Val::A((0..40).map(|k| format!("v{}", k)).collect())))).collect(),
+            Kind::S => vec![Op::Set(i, Val::S("y".repeat(16 * 1024))), Op::Set(i, Val::S("é".repeat(5000))), Op::Set(i, Val::S("z".into()))],
+            Kind::I => vec![Op::Set(i, Val::I(2147483648)), Op::Set(i, Val::I(-2147483649)), Op::Set(i, Val::I(4294967296)), Op::Set(i, Val::I(9007199254740993))],
+        };
+        for op in steps {
+            hist.push(op.clone());
+            if guard(|| op.apply_real(&mut real)).is_err() {
+                t.violation(Violation::new("history", hist_json("minimal", &hist), json!("returns"), json!("panic"), "setter panicked"));
+                break;
+            }
+            op.apply_model(&mut model);
+            t.states += 1;
+            t.transitions += 1;
+            let h = hist.clone();
+            if !check_state(&mut t, &real, &model, &move || hist_json("minimal", &h)) {
+                break;
+            }
+        }
+    }
+    run.merge(t);
     run.finish();
 }
